@@ -26,6 +26,7 @@ type C07Cfg struct {
 	PeerW    int // peer-imported registration / deregistration
 	DestW    int // service-defaults with / without destination, and deletion
 	MultiGwW int // one service linked by an ingress AND a terminating gateway whose instance advertises its virtual IP
+	MorphW   int // an existing instance (same node, same service ID) registered again with another kind / connect-native flag / name
 }
 
 // C07SanitizePeerRegistration rewrites a peer-scoped registration into the shape the peering stream produces
@@ -114,6 +115,7 @@ func (w *World) C07DrawOp(t *rapid.T, cfg *C07Cfg) *Op {
 		{cfg.PeerW, func() *Op { return w.c07DrawPeer(t) }},
 		{cfg.DestW, func() *Op { return w.c07DrawDefaults(t) }},
 		{cfg.MultiGwW, func() *Op { return w.c07DrawMultiGateway(t) }},
+		{cfg.MorphW, func() *Op { return w.c07DrawMorph(t) }},
 	}
 	total := 0
 	for _, f := range fams {
@@ -268,9 +270,77 @@ func (w *World) c07DrawLinkedDereg(t *rapid.T) *Op {
 	return NewDereg(DeregService, w.NextIdx(t), victim.node, victim.svc.ID, "")
 }
 
+// c07HTTPServices lists the services whose service-defaults entry says protocol http.
+func (w *World) c07HTTPServices() []string {
+	var out []string
+	for _, n := range ServiceNames {
+		if _, e, _ := w.Store.ConfigEntry(nil, structs.ServiceDefaults, n, nil); e != nil {
+			if sd, ok := e.(*structs.ServiceConfigEntry); ok && sd.Protocol == "http" {
+				out = append(out, n)
+			}
+		}
+	}
+	return out
+}
+
+// c07CloneEntry copies a stored config entry through its wire encoding (stored objects must never be modified).
+func c07CloneEntry(e structs.ConfigEntry) structs.ConfigEntry {
+	b, err := (&structs.ConfigEntryRequest{Op: structs.ConfigEntryUpsert, Entry: e}).MarshalBinary()
+	if err != nil {
+		panic(err)
+	}
+	var req structs.ConfigEntryRequest
+	if err := req.UnmarshalBinary(b); err != nil {
+		panic(err)
+	}
+	req.Entry.GetRaftIndex().CreateIndex, req.Entry.GetRaftIndex().ModifyIndex = 0, 0
+	return req.Entry
+}
+
 // c07DrawGatewayEntry writes or deletes an ingress / terminating gateway entry, favouring wildcards.
 func (w *World) c07DrawGatewayEntry(t *rapid.T) *Op {
 	var e structs.ConfigEntry
+	// aimed: rewrite the stored entry with the same services on the same ports and only a per-link SETTING changed
+	// (hosts of an ingress service, SNI / CA file of a linked service): the rows must follow
+	if hs := w.c07HTTPServices(); len(hs) == 0 && chance(t, "httpdefaults", 12) {
+		sd := &structs.ServiceConfigEntry{Kind: structs.ServiceDefaults, Name: pick(t, "httpdefaultsname", ServiceNames), Protocol: "http"}
+		if sd.Normalize() == nil && sd.Validate() == nil {
+			return NewConfig(ConfigSet, w.NextIdx(t), structs.ConfigEntryUpsert, sd)
+		}
+	}
+	if chance(t, "tune", 22) {
+		if _, cur, _ := w.Store.ConfigEntry(nil, structs.IngressGateway, "ingress-gw", nil); cur != nil && chance(t, "tuneingress", 50) {
+			ig := c07CloneEntry(cur).(*structs.IngressGatewayConfigEntry)
+			for li := range ig.Listeners {
+				l := &ig.Listeners[li]
+				if l.Protocol != "http" || len(l.Services) == 0 || l.Services[0].Name == structs.WildcardSpecifier {
+					continue
+				}
+				choices := [][]string{nil, {"web.example.com"}, {"www.example.com", "alt.example.com"}}
+				l.Services[0].Hosts = pick(t, "tunehosts", choices)
+				if ig.Validate() == nil {
+					return NewConfig(ConfigSet, w.NextIdx(t), structs.ConfigEntryUpsert, ig)
+				}
+			}
+		}
+		if _, cur, _ := w.Store.ConfigEntry(nil, structs.TerminatingGateway, "term-gw", nil); cur != nil {
+			tg := c07CloneEntry(cur).(*structs.TerminatingGatewayConfigEntry)
+			for si := range tg.Services {
+				sv := &tg.Services[si]
+				if sv.Name == structs.WildcardSpecifier {
+					continue
+				}
+				if chance(t, "tunesni", 50) {
+					sv.SNI = pick(t, "tunesnival", []string{"", sv.Name + ".example", sv.Name + ".internal"})
+				} else {
+					sv.CAFile = pick(t, "tunecafile", []string{"", "/etc/ca-1.pem", "/etc/ca-2.pem"})
+				}
+				if tg.Validate() == nil {
+					return NewConfig(ConfigSet, w.NextIdx(t), structs.ConfigEntryUpsert, tg)
+				}
+			}
+		}
+	}
 	if chance(t, "ingress", 50) {
 		ig := &structs.IngressGatewayConfigEntry{Kind: structs.IngressGateway, Name: "ingress-gw"}
 		l := structs.IngressListener{Port: 8000, Protocol: "http"}
@@ -278,6 +348,17 @@ func (w *World) c07DrawGatewayEntry(t *rapid.T) *Op {
 			l.Services = []structs.IngressService{{Name: "*"}}
 		} else {
 			l.Services = []structs.IngressService{{Name: pick(t, "igsvc", ServiceNames)}}
+			// an http listener only accepts services whose protocol is http: prefer those (else the store refuses the entry)
+			if hs := w.c07HTTPServices(); len(hs) > 0 && chance(t, "ighttpsvc", 85) {
+				l.Services[0].Name = pick(t, "igsvchttp", hs)
+			}
+			// per-service attributes that are copied into the gateway-services rows
+			switch pick(t, "ighosts", []string{"", "", "a", "b"}) {
+			case "a":
+				l.Services[0].Hosts = []string{"web.example.com"}
+			case "b":
+				l.Services[0].Hosts = []string{"www.example.com", "alt.example.com"}
+			}
 		}
 		ig.Listeners = append(ig.Listeners, l)
 		if chance(t, "second", 40) {
@@ -294,7 +375,10 @@ func (w *World) c07DrawGatewayEntry(t *rapid.T) *Op {
 		if chance(t, "explicit", 50) {
 			ls := structs.LinkedService{Name: pick(t, "tgsvc", ServiceNames)}
 			if chance(t, "sni", 50) {
-				ls.SNI = ls.Name + ".example"
+				ls.SNI = ls.Name + pick(t, "snisuffix", []string{".example", ".example", ".internal"})
+			}
+			if chance(t, "cafile", 30) {
+				ls.CAFile = pick(t, "cafilename", []string{"/etc/ca-1.pem", "/etc/ca-2.pem"})
 			}
 			tg.Services = append(tg.Services, ls)
 		}
@@ -555,4 +639,41 @@ func (w *World) c07ConfigSet(t *rapid.T, e structs.ConfigEntry) *Op {
 		return w.DrawCoord(t) // refused by the endpoint before raft apply: not a command
 	}
 	return NewConfig(ConfigSet, w.NextIdx(t), structs.ConfigEntryUpsert, e)
+}
+
+
+// c07DrawMorph registers an existing local instance again under the SAME node, service ID and service NAME but with
+// another shape (an agent whose service definition was edited and reloaded does exactly this): the kind, the
+// connect-native flag and the proxy destination / upstreams may all change in one in-place update, so every derived
+// view has to retract what the old shape contributed and add what the new one does. Gateway instances are left alone,
+// and the name is kept: a change of name under one ID fans out into every derived table at once (see the listed
+// finding in-place-name-or-kind-change-keeps-old-name-rows) and would bury everything else.
+func (w *World) c07DrawMorph(t *rapid.T) *Op {
+	var cands []c07Inst
+	for _, in := range w.c07LocalInstances() {
+		if in.svc.Service != structs.ConsulServiceName && (in.svc.Kind == structs.ServiceKindTypical || in.svc.Kind == structs.ServiceKindConnectProxy) {
+			cands = append(cands, in)
+		}
+	}
+	if len(cands) == 0 {
+		return w.c07DrawProxy(t)
+	}
+	in := pick(t, "morphinst", cands)
+	req := c07BaseReq(in.node, "")
+	if _, cur, _ := w.Store.GetNode(in.node, nil, ""); cur != nil {
+		req.ID, req.Address, req.NodeMeta, req.TaggedAddresses = cur.ID, cur.Address, cur.Meta, cur.TaggedAddresses
+	}
+	svc := &structs.NodeService{ID: in.svc.ID, Service: in.svc.Service, Port: in.svc.Port, Tags: in.svc.Tags, Weights: &structs.Weights{Passing: 1, Warning: 1}, EnterpriseMeta: defaultEM}
+	switch pick(t, "morphshape", []string{"plain", "native", "native", "proxy", "proxy"}) {
+	case "native":
+		svc.Connect.Native = true
+	case "proxy":
+		svc.Kind = structs.ServiceKindConnectProxy
+		svc.Proxy = structs.ConnectProxyConfig{DestinationServiceName: pick(t, "morphdest", ServiceNames)}
+		if chance(t, "morphups", 40) {
+			svc.Proxy.Upstreams = structs.Upstreams{{DestinationType: structs.UpstreamDestTypeService, DestinationName: pick(t, "morphup", ServiceNames), LocalBindPort: 9000}}
+		}
+	}
+	req.Service = svc
+	return NewRegister(w.NextIdx(t), req)
 }
